@@ -243,4 +243,47 @@ def run(F, rep):
     from engines import rule_markup_search
     rule_markup_search(F, rep, 'C07.X1', lambda g: '/src/' in g.file and not g.file.endswith('/printer.cpp'), 'the library (printer excepted, which writes markup)')
 
+    # ------------------------------------------------------------------ D: the import history is handed on
+    rep.rule('C07.D1', 'a function that carries the import history (a History& parameter) hands it on when it descends to another entity of its own kind: it does not call the history-less public wrappers (isResolved()/isDefined()/..., '
+                       'which start from an empty history) on a component from the component walk or on units from the units walk - otherwise an import cycle that passes through such a step is never recognised and the walk does not end')
+
+    def _hp(f_):
+        return [p_ for p_ in f_.params if 'History' in p_['t'] and p_['t'].rstrip().endswith('&') and not p_['t'].startswith('const')]
+    carriers = {k_ for k_, f_ in F.funcs.items() if _hp(f_)}
+    wrappers = set()
+    for k_, f_ in F.funcs.items():
+        if k_ in carriers:
+            continue
+        locs = [v for v in f_.walk() if v.get('k') == 'Var' and 'History' in (v.get('t') or '') and not (v.get('t') or '').startswith('std::shared_ptr<')]
+        if locs and any(c.get('k') == 'Call' and any(ck in carriers for ck in F.callee_keys(c)) for c in f_.walk()):
+            wrappers.add(k_)
+    # public entry points that reach a wrapper through a virtual call (ImportedEntity::isResolved -> doIsResolved)
+    via = set()
+    for k_, f_ in F.funcs.items():
+        for c in f_.walk():
+            if c.get('k') == 'Call':
+                for ck in F.callee_keys(c):
+                    if any(o in wrappers for o in F.overriders.get(ck, ())) and len(list(f_.walk())) < 40:
+                        via.add(k_)
+    if len(carriers) < 8 or len(wrappers) < 5:
+        raise AnalysisBroken('C07.D1: %d history-carrying functions, %d history-less wrappers found (11 / 8 confirmed)' % (len(carriers), len(wrappers)))
+    n_d = 0
+    for k_ in sorted(carriers):
+        f_ = F.funcs[k_]
+        own = 'Component' if 'Component' in (f_.cls or '') else ('Units' if 'Units' in (f_.cls or '') else None)
+        for c in f_.walk():
+            if c.get('k') != 'Call' or not c.get('mc'):
+                continue
+            cks = set(F.callee_keys(c))
+            hit = cks & (wrappers | via) or {o for ck in cks for o in F.overriders.get(ck, ()) if o in wrappers}
+            if not hit:
+                continue
+            n_d += 1
+            rt = (c['c'][0].get('t') or '') + (c['c'][0].get('rt') or '')
+            same = own is not None and ('libcellml::%s>' % own in rt or 'libcellml::%s ' % own in rt or rt.endswith('libcellml::%s' % own))
+            rep.check(not same, 'C07.D1', '%s|%s' % (f_.short.split('::')[-1], render(c)[:50]), f_.where(c),
+                      '%s carries the import history but asks `%s`, which starts from an empty history: the imports followed so far are forgotten at this step' % (f_.short, render(c)[:60]),
+                      'a different kind of entity (its own walk starts there)')
+    rep.ok('C07.D1', 'scan', None, '%d history carriers, %d history-less wrappers, %d wrapper calls from carriers' % (len(carriers), len(wrappers), n_d))
+
 
